@@ -495,7 +495,15 @@ fn rand_ip(rng: &mut Rng) -> String {
         Ipv4Addr::new(rng.byte(), rng.byte(), rng.byte(), rng.byte()).to_string()
     } else {
         let mut seg = [0u16; 8];
-        for s in seg.iter_mut() { *s = if rng.chance(1, 3) { 0 } else { (rng.next_u64() & 0xffff) as u16 }; }
+        // half of them with groups that read as decimal numbers (1, 2, 80, 443, 8080, 1234): after a "::" such an address ends in
+        // what looks like ":port" ("2001:db8::1:1", "fe80::1:2", "2001:db8::5:8080") - added after a seeded "address:port" reading
+        // of list entries cut the last group off
+        let decimal_like = rng.chance(1, 2);
+        for s in seg.iter_mut() {
+            *s = if rng.chance(1, 3) { 0 }
+                 else if decimal_like { *rng.pick(&[1u16, 1, 2, 5, 0x80, 0x443, 0x8080, 0x1234, 0x9999]) }
+                 else { (rng.next_u64() & 0xffff) as u16 };
+        }
         if seg[0] == 0 { seg[0] = 0x2001; } // keeps clear of the ::ffff:a.b.c.d display form
         Ipv6Addr::new(seg[0], seg[1], seg[2], seg[3], seg[4], seg[5], seg[6], seg[7]).to_string()
     }
